@@ -471,6 +471,99 @@ def null_guards(run, m, F, E):
     return n
 
 
+def renderer_bounds(run, m, F, E):
+    """R10.7: what the format string can make the renderers do stays bounded.  The width and the precision of a field come from the
+    format text (any int, negative after narrowing included); the two layout routines every field goes through - format_string for
+    text, format_numeric_string for digits - are interpreted with every member of the spec free over its type: every count handed to
+    append_char is at most the field width (zero when the width is not positive), every run handed to append lies inside the text
+    argument, and the argument is read only inside [text, text + size).  A count that is not bounded by the width is a finding with a
+    witness (a narrowed width of 2^31 turning into a count near 2^64 is the typical one)."""
+    from . import c11
+    n = 0
+    for dem, textname, sizename in (
+            ('ST::format_string(ST::format_spec const&, ST::format_writer&, char const*, unsigned long, ST::alignment_t)', 'TEXT', 'tsize'),
+            ('_ST_PRIVATE::format_numeric_string(ST::format_spec const&, ST::format_writer&, char const*, unsigned long, _ST_PRIVATE::numeric_type)', 'TEXT', 'tsize')):
+        f = None
+        for name in F.lib:
+            if m.func(name).dem.startswith(dem):
+                f = m.func(name)
+        if f is None:
+            run.ob('R10.7', dem.split('(')[0], None, 'layout routine not found', loc='')
+            continue
+        n += 1
+
+        class RH(c11.WriterHooks):
+            def on_access(self, I, st, inst, kind, p, nbytes):
+                if kind == 'load' and isinstance(p, PtrV) and p.obj == 'TEXT':
+                    st.ev('text-load', inst, p.off, nbytes)
+        I = Interp(m, F, E, RH(m))
+        st = State()
+        fl = c11.spec_scene(I, st, m)
+        if fl is None:
+            run.ob('R10.7', short(f.dem), None, 'layout of ST::format_spec not recognised', loc=fn_loc(f))
+            continue
+        st.rng['tsize'] = (0, c11.huge_limit(run) - 1)
+        st.objs['TEXT'] = Obj('ext', Lin.atom('tsize'))          # the argument need not be NUL-terminated: exactly size units
+        ts = Lin.atom('tsize')
+        last = I.fresh_int(st, 32, 'last_arg', lo=0, hi=2)
+        w = I.fresh_ptr(st, 'writer')
+        try:
+            outs = I.run(I.start(f, [PtrV('SPEC'), w, PtrV('TEXT'), IntV(64, ts, 'u'), last], st))
+        except Exception as e:
+            run.ob('R10.7', short(f.dem), None, 'not interpreted: %s' % (str(e)[:80],), loc=fn_loc(f))
+            continue
+        probs, und, npaths = [], [], 0
+        ml = fl['minimum_length']
+        for o in outs:
+            s2 = o.st
+            if o.kind == 'abort':
+                probs.append('aborts (%s)' % (o.info[1] if o.info and len(o.info) > 1 else o.info,))
+                continue
+            if o.kind not in ('ret', 'backedge'):
+                continue
+            npaths += 1
+            width = I.as_s(s2, ml)
+            for e in s2.events:
+                if e[0] == 'emit-char' and e[3] is not None:
+                    cnt = e[3]
+                    if s2.is_eq0(cnt) is True or (not cnt.t and cnt.c <= 4):
+                        continue            # nothing, or a sign / prefix character: a small constant, bounded whatever the width
+                    d = width - cnt
+                    if s2.is_ge0(d) is not True:
+                        env = s2.find_model([d, cnt], lambda v: v[0] < 0 and v[1] >= 1)
+                        if env is not None:
+                            probs.append('append_char is handed %r pad unit(s) for a field of width %r (line %d): the count is not bounded by the width '
+                                         'the format string asked for; witness %s' % (cnt, width, e[1].line, own.fmt_env(env)))
+                        elif not own_abs(cnt) and not own_abs(width):
+                            und.append('pad count %r not decided to be bounded by the width' % (cnt,))
+                elif e[0] == 'emit' and isinstance(e[2], PtrV) and e[2].obj == 'TEXT' and e[3] is not None:
+                    room = ts - e[2].off - e[3]
+                    if s2.is_ge0(room) is not True or s2.is_ge0(e[2].off) is not True:
+                        env = s2.find_model([room, e[2].off], lambda v: v[0] < 0 or v[1] < 0)
+                        if env is not None:
+                            probs.append('append is handed %r unit(s) at offset %r of a text of %r; witness %s' % (e[3], e[2].off, ts, own.fmt_env(env)))
+                        else:
+                            und.append('emitted range of the text argument not decided to lie inside it')
+                elif e[0] in ('oob', 'oob?') and isinstance(e[3], PtrV) and e[3].obj == 'TEXT':
+                    env = e[6] if len(e) > 6 else None
+                    if e[0] == 'oob' or env is not None:
+                        probs.append('reads the text argument at offset %r of %r unit(s) (line %d): it is a (pointer, size) pair and need not be '
+                                     'terminated%s' % (e[3].off, ts, e[1].line, '; witness ' + own.fmt_env(env) if env else ''))
+                    else:
+                        und.append('a read of the text argument at line %d not decided to lie inside it' % e[1].line)
+        if npaths == 0:
+            und.append('no path explored')
+        probs = sorted(set(probs), key=len)
+        run.ob('R10.7', short(f.dem), False if probs else (None if und else True), probs[0] if probs else (und[0] if und else
+               'pad counts <= width, emitted runs and reads inside [text, text + size) on %d paths' % npaths), loc=fn_loc(f))
+    return n
+
+
+def own_abs(l):
+    from .common import abstract_atoms
+    return bool(abstract_atoms(l))
+
+
 def check(run):
     m = run.module()
     F = run.facts()
@@ -485,3 +578,4 @@ def check(run):
     run.floor('assertion messages reachable from format entries', assert_inventory(run, m, F), 8)
     run.floor('integer format_type overloads', digit_class(run, m, F, E), 12)
     run.floor('raw pointer format_type overloads', null_guards(run, m, F, E), 5)
+    run.floor('layout routines (renderer bounds)', renderer_bounds(run, m, F, E), 2)
